@@ -39,6 +39,9 @@ pub enum Traffic {
     TlsHugeDeclared,
     /// a complete handshake record that is not a ClientHello, then application-data records
     TlsAppDataAfterNonHello,
+    /// back-to-back complete handshake records that are not a ClientHello (HelloRequest, ServerHelloDone,
+    /// small certificates), many per segment: every record is valid, none ever yields a fingerprint
+    TlsManyNonHelloRecords,
     /// random bytes without a SYN
     RandomNoSyn,
     /// the SYN sender carries a complete *response* head (or the responder a request head), then endless data:
@@ -107,6 +110,26 @@ fn stream_of(c: &LongConn) -> Stream {
             Stream { bytes: b, from_client: true, syn: true }
         }
         Traffic::RandomNoSyn => Stream { bytes: r.bytes(total), from_client: true, syn: false },
+        Traffic::TlsManyNonHelloRecords => {
+            let mut b = vec![];
+            while b.len() < total {
+                // two streams in three consist only of records every TLS parser accepts (a parse error would
+                // end the flow and hide any accumulation); the third mixes in opaque handshake bodies
+                let only_valid = c.payload_seed % 3 != 0;
+                match if only_valid { r.below(2) } else { r.below(3) } {
+                    0 => b.extend_from_slice(&[0x16, 3, 3, 0, 4, 0, 0, 0, 0]),    // HelloRequest
+                    1 => b.extend_from_slice(&[0x16, 3, 3, 0, 4, 14, 0, 0, 0]),   // ServerHelloDone
+                    _ => {
+                        let n = r.urange(4, 60);
+                        let mut hs = vec![*r.pick(&[11u8, 12, 16, 4]), 0, 0, n as u8];
+                        hs.extend_from_slice(&r.bytes(n));
+                        b.extend_from_slice(&tls::record(0x16, 0x0303, &hs));
+                    }
+                }
+            }
+            b.truncate(total.max(9));
+            Stream { bytes: b, from_client: true, syn: true }
+        }
         Traffic::WrongKindThenEndless => {
             let from_client = r.chance(1, 2);
             let mut b = if from_client { http1::response(&mut r, 0).bytes } else { http1::request(&mut r, 0).bytes };
@@ -142,7 +165,7 @@ impl Prop for C11 {
     const ENGINE: &'static str = "netsim";
 
     fn rule() -> &'static str {
-        "one evaluation = one delivered segment of a long never-fingerprinting (or contrast) connection, with the counting allocator sampled around it; bounds: live - baseline <= connections x 512 KiB + 1 MiB, allocated per packet <= 4 MiB + 64 x packet length, and the median per-packet allocation of a connection's last tenth <= 2 x its first tenth + 2 MiB; non-trivial = the run delivers >= 500 segments on at least one connection that never yields a fingerprint; distinct = distinct event-log hash"
+        "one evaluation = one delivered segment of a long never-fingerprinting (or contrast) connection, with the counting allocator sampled around it; bounds: live - baseline <= connections x 512 KiB + 1 MiB, live(last tenth) - live(first tenth) <= connections x 512 KiB, allocated per packet <= 4 MiB + 64 x packet length, and the median per-packet allocation of a connection's last tenth <= 2 x its first tenth + 2 MiB; non-trivial = the run delivers >= 500 segments on at least one connection that never yields a fingerprint; distinct = distinct event-log hash"
     }
 
     fn runs(tier: Tier) -> u64 {
@@ -164,9 +187,9 @@ impl Prop for C11 {
         let mut conns = vec![];
         for i in 0..m {
             let traffic = match kind {
-                Kind::Tls => *r.pick(&[Traffic::TlsHugeDeclared, Traffic::TlsAppDataAfterNonHello, Traffic::TlsAppDataAfterNonHello, Traffic::BinaryAfterSyn, Traffic::RandomNoSyn, Traffic::Completing]),
+                Kind::Tls => *r.pick(&[Traffic::TlsHugeDeclared, Traffic::TlsManyNonHelloRecords, Traffic::TlsManyNonHelloRecords, Traffic::TlsAppDataAfterNonHello, Traffic::TlsAppDataAfterNonHello, Traffic::BinaryAfterSyn, Traffic::RandomNoSyn, Traffic::Completing]),
                 Kind::Tcp => *r.pick(&[Traffic::BinaryAfterSyn, Traffic::EndlessHttpHead, Traffic::RandomNoSyn, Traffic::Completing]),
-                _ => *r.pick(&[Traffic::EndlessHttpHead, Traffic::WrongKindThenEndless, Traffic::WrongKindThenEndless, Traffic::EndlessHttpResponseHead, Traffic::BinaryAfterSyn, Traffic::TlsHugeDeclared, Traffic::TlsAppDataAfterNonHello, Traffic::RandomNoSyn, Traffic::Completing]),
+                _ => *r.pick(&[Traffic::EndlessHttpHead, Traffic::TlsManyNonHelloRecords, Traffic::WrongKindThenEndless, Traffic::WrongKindThenEndless, Traffic::EndlessHttpResponseHead, Traffic::BinaryAfterSyn, Traffic::TlsHugeDeclared, Traffic::TlsAppDataAfterNonHello, Traffic::RandomNoSyn, Traffic::Completing]),
             };
             let n_segs = match tier {
                 Tier::Quick => *r.pick(&[200usize, 600, 1000, 2000]),
@@ -206,6 +229,7 @@ impl Prop for C11 {
         let live_bound = n_conn.min(s.cap.max(1) as i64).max(1) * L_PER_CONN + SLACK;
         let mut next = vec![0usize; s.conns.len()];
         let mut allocs: Vec<Vec<u64>> = vec![vec![]; s.conns.len()];
+        let mut lives: Vec<i64> = vec![];
         let mut fingerprinted = vec![false; s.conns.len()];
         let mut delivered = 0usize;
         let mut live_max: i64 = 0;
@@ -250,6 +274,7 @@ impl Prop for C11 {
                 let alloc_i = after.allocated - before.allocated;
                 let live_i = after_drop.live() - live0;
                 allocs[ci].push(alloc_i);
+                lives.push(live_i);
                 live_max = live_max.max(live_i);
                 alloc_max = alloc_max.max(alloc_i);
                 if k % 64 == 0 {
@@ -265,6 +290,20 @@ impl Prop for C11 {
             }
             if !progressed {
                 break;
+            }
+        }
+        // retained memory must plateau: what the analyzer holds during the last tenth of the run may not exceed
+        // what it held during the first tenth by more than the per-connection limit times the number of
+        // connections (a buffer that grows with every segment crosses this long before the absolute bound)
+        if lives.len() >= 200 {
+            let tenth = lives.len() / 10;
+            let mut first: Vec<u64> = lives[..tenth].iter().map(|x| (*x).max(0) as u64).collect();
+            let mut last: Vec<u64> = lives[lives.len() - tenth..].iter().map(|x| (*x).max(0) as u64).collect();
+            let (mf, ml) = (median(&mut first) as i64, median(&mut last) as i64);
+            let allowed = n_conn.min(s.cap.max(1) as i64).max(1) * L_PER_CONN;
+            if ml - mf > allowed {
+                let worst = s.conns.iter().map(|c| format!("{:?}", c.traffic)).collect::<Vec<_>>().join(",");
+                return Err(Violation::new("retained-memory-grows", format!("{}:{}", s.kind.name(), worst.split(',').next().unwrap_or("")), format!("retained memory grew from {} KiB (median of the first tenth of the run) to {} KiB (last tenth) over {} delivered segments; allowed growth {} KiB; traffic: {}", mf / 1024, ml / 1024, lives.len(), allowed / 1024, worst)));
             }
         }
         // flatness per connection
